@@ -112,11 +112,11 @@ Definition image_of_data (v : val) : option image :=
   | _ => None
   end.
 
-(* [Ok (Some i)]: returns `Some(image)`; [Ok None]: bincode failed, returns `None`; [Panic]: the
-   `unwrap` of a failed decompression *)
+(* [Ok (Some i)]: returns `Some(image)`; [Ok None]: decompression or bincode failed, returns `None`
+   (a failed decompression used to panic on `unwrap`: repaired by 1d88107) *)
 Definition bin_to_image (bs : bytes) : outcome (option image) :=
   match decompress bs with
-  | inl _ => Panic
+  | inl _ => Ok None
   | inr raw =>
     match dec ImageData_ty raw with
     | None => Ok None
@@ -134,7 +134,7 @@ Definition image_to_bin_fast (i : image) : option bytes :=
 
 Definition bin_to_image_fast (bs : bytes) : outcome (option image) :=
   match decompress bs with
-  | inl _ => Panic
+  | inl _ => Ok None
   | inr raw =>
     match dec_fast ImageData_ty raw with
     | None => Ok None
